@@ -179,6 +179,21 @@ def run(cx, rep):
 # ---------------------------------------------------------------------------
 # C06.3
 
+_HIR = {}
+
+
+def _is_some_bits(e):
+    """the call yields the bit set of tags for which the receiver has a PROPER part: a local method without arguments
+    whose body folds `to_code()` of the elements of `subtype_data` (and does not read `all`), whatever it is called"""
+    tg = e.get("resolved") or e.get("callee")
+    t = _HIR.get(tg)
+    if t is None or e["args"]:
+        return False
+    fields = {x["name"] for x in walk(t["body"]) if x["k"] == "Field"}
+    codes = any(x["k"] == "MethodCall" and x["method"] == "to_code" for x in walk(t["body"]))
+    return "subtype_data" in fields and "all" not in fields and codes
+
+
 def bit_formula(e, env):
     """interpret a u32 bit expression over t1/t2 fields as a per-tag Boolean formula"""
     k = e["k"]
@@ -192,7 +207,7 @@ def bit_formula(e, env):
             base = base["e"]
         if base["k"] == "Path" and base.get("res") == "local":
             return V("A_" + base["name"])
-    if k == "MethodCall" and e["method"] == "some_as_bitset":
+    if k == "MethodCall" and _is_some_bits(e):
         base = e["recv"]
         while base["k"] in ("Unary", "AddrOf"):
             base = base["e"]
@@ -210,6 +225,8 @@ def bit_formula(e, env):
 
 
 def check_semtype_ops(cx, rep, F_, model):
+    _HIR.clear()
+    _HIR.update(F_.hir)
     impl = "<std::rc::Rc<subtyping::semtype::ComplexSemType> as subtyping::semtype::SemTypeOps>::"
     for op in ("intersect", "union", "diff"):
         gid = impl + op
@@ -384,31 +401,50 @@ def classify_pair_arm(body, names):
 # C06.4
 
 def check_dnf(cx, rep, F_):
-    g = [f for f in F_.fns.values() if f.name == "bdd_to_dnf_recursive"]
-    if len(g) != 1:
-        rep.anchor_missing("C06.4", "bdd_to_dnf_recursive")
+    # located by role: the self-recursive function over a Bdd that threads two equally typed `&mut Vec<Atom>` stacks
+    # (positive first, negative second) and an output accumulator
+    cands = []
+    for f in F_.fns.values():
+        if not f.mir or f.kind == "Closure" or f.id not in F_.hir:
+            continue
+        ins = f.inputs or []
+        if not ins or "Bdd" not in ins[0] or f.id not in F_.edges.get(f.id, ()):
+            continue
+        st = [i for i, t in enumerate(ins) if t.startswith("&mut std::vec::Vec<") and "Atom" in t]
+        if len(st) == 2 and ins[st[0]] == ins[st[1]]:
+            cands.append((f, st))
+    if len(cands) != 1:
+        rep.anchor_missing("C06.4", "the DNF path collector (self-recursive fn(&Bdd, &mut Vec<Atom>, &mut Vec<Atom>, ..)); found %d" % len(cands))
         return
-    f = g[0]
+    f, st = cands[0]
     tree = F_.hir[f.id]
+    plids = [p.get("lid") if p["k"] == "P.Binding" else None for p in tree["params"]]
+    role = {plids[st[0]]: "pos", plids[st[1]]: "neg"}
+    fld = {}
+    for n in walk(tree["body"]):
+        if n["k"] == "P.Struct" and (n.get("def") or "").endswith("Bdd::Node"):
+            for fl in n["fields"]:
+                for bnd in walk(fl["pat"]):
+                    if bnd["k"] == "P.Binding":
+                        fld[bnd.get("lid")] = fl["name"]
     # the Node arm: sequence of statements; recursive calls on left/middle/right, push/pop on pos/neg
     seq = []
     for n in walk(tree["body"]):
         if n["k"] == "Match":
             for a in n["arms"]:
                 if a["pat"].get("def", "").endswith("Bdd::Node") or (a["pat"]["k"] == "P.Struct"):
-                    seq = linear_events(a["body"], f.name)
+                    seq = linear_events(F_, f, a["body"], role, fld)
                 if a["pat"].get("def", "").endswith("Bdd::True"):
-                    ev_true = linear_events(a["body"], f.name)
+                    ev_true = linear_events(F_, f, a["body"], role, fld)
                     rep.ob("C06.4", "clause-at-True", any(e[0] == "push" and e[1] not in ("pos", "neg") for e in ev_true),
-                           "bdd_to_dnf_recursive: the True arm must emit the accumulated clause", "%s:%s" % (f.file, a["line"]))
+                           "%s: the True arm must emit the accumulated clause" % f.name, "%s:%s" % (f.file, a["line"]))
                 if a["pat"].get("def", "").endswith("Bdd::False"):
-                    ev_false = linear_events(a["body"], f.name)
+                    ev_false = linear_events(F_, f, a["body"], role, fld)
                     rep.ob("C06.4", "no-clause-at-False", not any(e[0] == "push" for e in ev_false),
-                           "bdd_to_dnf_recursive: the False arm must not emit a clause", "%s:%s" % (f.file, a["line"]))
+                           "%s: the False arm must not emit a clause" % f.name, "%s:%s" % (f.file, a["line"]))
     # expected shape: rec(middle) with balanced stacks; push pos, rec(left), pop pos; push neg, rec(right), pop neg
     depth = {"pos": 0, "neg": 0}
     ok = True
-    detail = []
     recs = {}
     for e in seq:
         if e[0] == "push" and e[1] in depth:
@@ -419,18 +455,18 @@ def check_dnf(cx, rep, F_):
                 ok = False
         elif e[0] == "rec":
             recs[e[1]] = dict(depth)
-    detail = {k: v for k, v in recs.items()}
     want = {"left": {"pos": 1, "neg": 0}, "right": {"pos": 0, "neg": 1}, "middle": {"pos": 0, "neg": 0}}
     for br, w in want.items():
         rep.ob("C06.4", "recursion-%s" % br, recs.get(br) == w,
-               "bdd_to_dnf_recursive: recursive call on `%s` runs with stack depths %s (expected %s: left under +atom, right under -atom, middle under neither)" % (br, recs.get(br), w),
+               "%s: recursive call on `%s` runs with stack depths %s (expected %s: left under +atom, right under -atom, middle under neither)" % (f.name, br, recs.get(br), w),
                f.loc(), sample={"branch": br, "stack_depths": recs.get(br)})
     rep.ob("C06.4", "balanced", ok and depth == {"pos": 0, "neg": 0},
-           "bdd_to_dnf_recursive: pos/neg stacks are not restored at the end of the Node arm (depths %s)" % depth, f.loc())
+           "%s: pos/neg stacks are not restored at the end of the Node arm (depths %s)" % (f.name, depth), f.loc())
 
 
-def linear_events(body, fname):
-    """source-ordered events in a block: ('push'|'pop', receiver local), ('rec', which sub-diagram)"""
+def linear_events(F_, f, body, role, fld):
+    """source-ordered events in a block: ('push'|'pop', 'pos'|'neg'|other), ('rec', which sub-diagram); stacks and
+    sub-diagrams are identified by binding (parameter position / field of Bdd::Node), not by name"""
     out = []
 
     def visit(n):
@@ -441,11 +477,11 @@ def linear_events(body, fname):
         if not isinstance(n, dict):
             return
         if n.get("k") == "MethodCall" and n["method"] in ("push", "pop"):
-            recv = [x["name"] for x in walk(n["recv"]) if x["k"] == "Path" and x.get("res") == "local"]
-            out.append((n["method"], recv[0] if recv else "?"))
+            recv = [x for x in walk(n["recv"]) if x["k"] == "Path" and x.get("res") == "local"]
+            out.append((n["method"], role.get(recv[0].get("lid"), recv[0]["name"]) if recv else "?"))
             return
-        if n.get("k") == "Call" and (n.get("callee") or "").endswith(fname):
-            arg0 = [x["name"] for x in walk(n["args"][0]) if x["k"] == "Path" and x.get("res") == "local"]
+        if n.get("k") == "Call" and F_._callee_gid(f.crate, n.get("callee") or "") == f.id:
+            arg0 = [fld.get(x.get("lid")) for x in walk(n["args"][0]) if x["k"] == "Path" and x.get("res") == "local" and x.get("lid") in fld]
             out.append(("rec", arg0[0] if arg0 else "?"))
             return
         for k, v in n.items():
